@@ -179,6 +179,37 @@ def check_case(case, stats=None):
     return out
 
 
+def gen_staggered(D, G):
+    """A task owning several sub-workflow executions that progress at
+    different rates (with-items over sub-workflows, some children waiting
+    for an asynchronous action)."""
+    n = D.int(2, 4)
+
+    def T(**kw):
+        t = G.new_task()
+        t['form'] = {'action': 'noop'}
+        t.update(kw)
+        return t
+    root = {'name': 'wf', 'type': 'direct', 'input': {}, 'defaults': None,
+            'output': None, 'lang': 'yaql', 'order': ['w', 'after'],
+            'tasks': {'w': T(workflow='sub0'), 'after': T()}}
+    root['tasks']['w']['with-items'] = 'i in <% [' + ', '.join(
+        str(i) for i in range(n)) + '] %>'
+    if D.bool(0.4):
+        root['tasks']['w']['concurrency'] = D.int(1, n)
+    root['tasks']['w']['on-success'] = [{'to': 'after', 'guard': None}]
+    sub = {'name': 'sub0', 'type': 'direct', 'input': {}, 'defaults': None,
+           'output': None, 'lang': 'yaql', 'order': ['s0_0', 's0_1'],
+           'tasks': {'s0_0': T(action='std.async_noop'), 's0_1': T()}}
+    sub['tasks']['s0_0']['on-success'] = [{'to': 's0_1', 'guard': None}]
+    root['subs'] = [sub]
+    # per child instance: the async action either completes or stays open
+    occ = [(['ok', 'a'] if D.bool(0.5) else ['never']) for _ in range(n)]
+    outc = {'w': [['ok', 'a']], 'after': [['ok', 'a']],
+            's0_0': occ, 's0_1': [['ok', 'a']]}
+    return root, outc
+
+
 def strategy(max_tasks=6):
     from hypothesis import strategies as st
     from mv.gen import workflows as G
@@ -190,7 +221,9 @@ def strategy(max_tasks=6):
         D = HDraw(draw)
         F = G.feats(with_items=True, async_actions=True, cycles=False,
                     expr_failures=False)
-        if D.bool(0.6):
+        if D.bool(0.25):
+            prog, outc = gen_staggered(D, G)
+        elif D.bool(0.6):
             prog, outc = G.gen_nested(D, F, max_tasks)
         else:
             prog, outc = G.gen_direct(D, F, max_tasks)
